@@ -212,6 +212,8 @@ def judge_field(ctx, rec, res, fam, name):
         return expect_val(res, rec, ("t", a[0] == m.zero))
     if name == "eq":
         return expect_val(res, rec, ("t", a[0] == a[1]))
+    if name == "ne":
+        return expect_val(res, rec, ("t", a[0] != a[1]))
     # ---- prime fields
     if fam in ("fq", "fr"):
         mod = m.m
@@ -342,6 +344,8 @@ def judge_repr(ctx, rec, res, fam, name):
         return expect_val(res, rec, ("t", a[0] < a[1] if name == "lt" else a[0] > a[1]))
     if name == "eq":
         return expect_val(res, rec, ("t", a[0] == a[1]))
+    if name == "ne":
+        return expect_val(res, rec, ("t", a[0] != a[1]))
     if name == "from_u64":
         return expect_val(res, rec, (fam, a[0][0]))
     if name == "write_be":
@@ -411,6 +415,14 @@ def judge_curve(ctx, rec, res, g, name):
         if not (on_curve(A[0]) and on_curve(A[1]) and canonical_affine(A[0]) and canonical_affine(A[1])):
             return SKIP
         return expect_val(res, rec, ("t", c.eq(pt(A[0])[1], pt(A[1])[1])))
+    if name == "ne":
+        if not (on_curve(A[0]) and on_curve(A[1])):
+            return SKIP
+        return expect_val(res, rec, ("t", not c.eq(pt(A[0])[1], pt(A[1])[1])))
+    if name == "ane":
+        if not (on_curve(A[0]) and on_curve(A[1]) and canonical_affine(A[0]) and canonical_affine(A[1])):
+            return SKIP
+        return expect_val(res, rec, ("t", not c.eq(pt(A[0])[1], pt(A[1])[1])))
     if name in ("to_affine", "to_affine_from", "to_proj", "to_proj_from"):
         if not on_curve(A[0]):
             return SKIP
@@ -460,6 +472,20 @@ def judge_curve(ctx, rec, res, g, name):
         if not on_curve(A[0]):
             return SKIP
         return expect_point(res, rec, g, smul(g, A[1][1], pt(A[0])[1]))
+    if name == "batch_norm_n":
+        if not on_curve(A[0]):
+            return SKIP
+        n_ = A[1][1]
+        res.evals += 1
+        if rec.status != "ok":
+            return "%d normalised representatives (observed %s)" % (n_, rec.status)
+        if rec.outs[0] != ("n", n_):
+            return "all %d entries equal to the affine form of the point (observed %r)" % (n_, rec.outs[0][1])
+        P = pt(A[0])[1]
+        for o in rec.outs[1:]:
+            if not curve(g).eq(pt(o)[1], P):
+                return "point " + show_pt(P)
+        return None
     if name == "wnaf_table":
         if not on_curve(A[0]):
             return SKIP
